@@ -38,6 +38,7 @@ fn main() {
         Some("replay") => driver::replay(&args[2..]),
         Some("fingerprints") => driver::fingerprints(&args[2..]),
         Some("shrink") => shrink::shrink_cmd(&args[2..]),
+        Some("confirm-shrink") => shrink::confirm_shrink_cmd(&args[2..]),
         Some("list") => {
             for p in fw::registry() {
                 println!("{} [{}]", p.id, p.level);
